@@ -305,6 +305,31 @@ pub(crate) fn decide_merge(k: usize) -> usize {
     })
 }
 
+/// `par_bridge` does not keep the order of the iterator it bridges: the order in which the items
+/// of a bridged iterator of `n` items reach the consumer (canonical: the iterator's own order;
+/// only when the pool has more than one thread).
+pub(crate) fn decide_bridge_order(n: usize) -> Vec<usize> {
+    with(|c| {
+        let mut order: Vec<usize> = (0..n).collect();
+        let mut moved = false;
+        if n > 1 && c.threads > 1 && c.live() {
+            // a few seeded transpositions / one rotation: what a handful of workers pulling from one
+            // iterator produces, not a uniform shuffle
+            let swaps = 1 + c.below(4);
+            for _ in 0..swaps {
+                let i = c.below(n as u64) as usize;
+                let j = (i + 1 + c.below(8.min(n as u64 - 1).max(1)) as usize) % n;
+                if i != j {
+                    order.swap(i, j);
+                    moved = true;
+                }
+            }
+        }
+        c.note(5, moved as u64, !moved);
+        order
+    })
+}
+
 /// For a short-circuiting `all`/`any`: after the verdict is known, should the
 /// remaining pieces still be run?
 pub(crate) fn decide_continue() -> bool {
